@@ -522,6 +522,49 @@ trivial = no record; distinct = distinct sequences of (body kind, size class, pr
     });
     // Headers alone, many of them, on all worker threads at once: files that hold nothing but the
     // 24 header bytes, every thread reading other dates than its neighbours at the same moment.
+    // ... and in a tight loop: each case decodes thirty-two headers of different dates and then asks
+    // every one of them for its instant eight times in a row - a quarter of a thousand accessor calls
+    // back to back on every worker thread, each compared with the calendar.
+    let tight: u64 = ctx.tier.pick(3_000, 100_000);
+    par_cases(ctx, tight, |i, obs| {
+        let mut rng = Rng::derive(seed, 56, i);
+        let mut hs = Vec::new();
+        for k in 0..32u64 {
+            let mut w = VolHeader::realistic(&mut rng);
+            w.date = 1 + ((i * 32 + k * 2_003) % 65_535) as u32;
+            w.time = rng.below(86_400_000) as u32;
+            let bytes = w.encode().to_vec();
+            match mon::catch(|| File::new(bytes).header()) {
+                Ok(Ok(h)) => hs.push((h, w.date, w.time)),
+                Ok(Err(e)) => {
+                    obs.violation("header of a header-only file refused", format!("{e:?}"), json!({"index": i}));
+                    return;
+                }
+                Err(p) => {
+                    obs.violation(format!("File::header {}", p.signature()), p.message, json!({"index": i}));
+                    return;
+                }
+            }
+        }
+        obs.case(mix(58, i));
+        for round in 0..8 {
+            for (h, date, time) in &hs {
+                let want = cal::icd_epoch_ms(*date as u16, *time as u64);
+                match mon::catch(|| h.date_time().map(|t| t.timestamp_millis())) {
+                    Ok(Some(t)) if t == want => {}
+                    Ok(other) => {
+                        obs.violation("header date_time", format!("date {} time {} (round {} of a tight loop on all worker threads): expected epoch ms {}, got {:?}", date, time, round, want, other), json!({"scenario": "tight loop", "index": i, "date": date, "time": time}));
+                        return;
+                    }
+                    Err(p) => {
+                        obs.violation(format!("header date_time {}", p.signature()), p.message, json!({"index": i}));
+                        return;
+                    }
+                }
+            }
+        }
+        obs.count("header_instants_exact_in_tight_loops", 256);
+    });
     let headers: u64 = ctx.tier.pick(60_000, 2_000_000);
     par_cases(ctx, headers, |i, obs| {
         let mut rng = Rng::derive(seed, 55, i);
